@@ -401,6 +401,24 @@ pub mod n1 {
         #[diplomat::attr(auto, namespace = "nsb::deep")]
         #[diplomat::attr(supports = namespacing, rename = "Same")]
         pub struct NsSame2;
+        // namespaces whose directory name is a proper string prefix of a sibling's: nsa::in / nsa::inner, ns / nsb
+        #[diplomat::opaque]
+        #[diplomat::attr(auto, namespace = "nsa::in")]
+        pub struct NsPrefixIn;
+        #[diplomat::opaque]
+        #[diplomat::attr(auto, namespace = "ns")]
+        pub struct NsPrefixTop;
+        impl NsPrefixIn {
+            pub fn longer(&self, s: &NsSame1) -> Option<Box<NsSame1>> { None }
+            pub fn st(&self) -> NsInnerS %(U)s
+        }
+        impl NsPrefixTop {
+            pub fn longer(&self, d: &NsSame2) -> Option<Box<NsSame2>> { None }
+            pub fn back(&self, p: &NsPrefixIn) -> Option<Box<NsPrefixIn>> { None }
+        }
+        impl NsSame1 {
+            pub fn shorter(&self, p: &NsPrefixIn, t: &NsPrefixTop) -> u8 { 0 }
+        }
         impl NsOp {
             pub fn inner(&self) -> NsInnerS %(U)s
             pub fn deep(&self, d: &NsDeepOp, g: &NsGlobal) -> Option<Box<NsDeepOp>> { None }
